@@ -29,7 +29,9 @@ pub struct FlowSpec {
     pub thorough_depth: usize,
     /// extra letters appended to the FLOW alphabet (T = 2)
     pub extra: Vec<Letter>,
+    /// layered model; `heavy_oracle`: the oracle costs milliseconds per state, so the thorough layered model has 3 options per slot instead of 4
     pub deep: bool,
+    pub heavy_oracle: bool,
     pub seeded: bool,
     /// explore T = 3 as well (thorough)
     pub t3: bool,
@@ -68,8 +70,13 @@ pub fn flow_models<C: StateCheck + Copy>(ctx: &Ctx, shared: &Arc<Shared>, c: C, 
             explore(ctx, "FLOW wide T=2 large {0,1234.56,2^20} depth<=3", Wide { alphabet: mk(2, &[0, 123456, 100 << 20], Rich::Base), bases: alpha::bases(false), max_add: 3, repeat: false }, c, shared.clone());
         }
         if spec.deep {
-            let opts = vec![k(&[1, 0]), k(&[0, 3]), k(&[3, 1])];
-            explore(ctx, "FLOW deep 12 slots x 4", Layered { slots: alpha::flow_slots(2, &opts, Rich::Wide), bases: alpha::bases(false) }, c, shared.clone());
+            if spec.heavy_oracle {
+                let opts = vec![k(&[1, 0]), k(&[3, 1])];
+                explore(ctx, "FLOW deep 12 slots x 3", Layered { slots: alpha::flow_slots(2, &opts, Rich::Wide), bases: alpha::bases(false) }, c, shared.clone());
+            } else {
+                let opts = vec![k(&[1, 0]), k(&[0, 3]), k(&[3, 1])];
+                explore(ctx, "FLOW deep 12 slots x 4", Layered { slots: alpha::flow_slots(2, &opts, Rich::Wide), bases: alpha::bases(false) }, c, shared.clone());
+            }
         }
         if spec.seeded {
             explore(ctx, "seeded: shipped files + <=2 lines", Wide { alphabet: alpha::seeded_letters(), bases: alpha::shipped_bases(), max_add: 2, repeat: false }, c, shared.clone());
